@@ -6,6 +6,7 @@ import hashlib
 import json
 import os
 import pickle
+import shutil
 import re
 import sys
 import time
@@ -248,17 +249,28 @@ def get(ctx):
     key = hashlib.sha1(("%s|%s|%s|%s" % (vp.repo_hash(), vp.verif_hash(["tools", "lib", "ocaml", "coq/theories", "harness", "corpus"]),
                                          ctx.seed, ctx.tier)).encode()).hexdigest()[:16]
     path = os.path.join(STREAM, "run-%s.pkl" % key)
-    if os.path.exists(path):
+    if os.path.exists(path) and os.path.isdir(os.path.join(STREAM, "bin-%s" % key)):
         with open(path, "rb") as f:
             return pickle.load(f)
     st = build(ctx.seed, ctx.tier)
     st["key"] = key
+    # the binaries belong to this key: the build directory is reused by the next build (of another tree)
+    bindir = os.path.join(STREAM, "bin-%s" % key)
+    shutil.rmtree(bindir, ignore_errors=True)
+    os.makedirs(bindir)
+    moved = {}
+    for gid, exe in st["exes"].items():
+        if exe not in moved:
+            moved[exe] = os.path.join(bindir, os.path.basename(exe))
+            shutil.copy(exe, moved[exe])
+        st["exes"][gid] = moved[exe]
     with open(path, "wb") as f:
         pickle.dump(st, f)
     # keep the cache small
     runs = sorted((os.path.getmtime(os.path.join(STREAM, x)), x) for x in os.listdir(STREAM) if x.startswith("run-"))
     for _, x in runs[:-4]:
         os.remove(os.path.join(STREAM, x))
+        shutil.rmtree(os.path.join(STREAM, "bin-" + x[4:-4]), ignore_errors=True)
     return st
 
 
